@@ -44,4 +44,13 @@ def r6(run, tree):
     hf.check_get_cpu_list_fold(run, tree)
 
 
-RULES = [r1, r3, r5, r6]
+def r7_fresh_pieces(run, tree):
+    run.rule("C04.R7", "a selective load returns rows of THIS load only: every (re)initialisation of a reader starts each variable from empty pieces, and "
+             "the Loader concatenates exactly the pieces of the current traversal (shared with C12/C13/C15)", "D7 folds of Reader.descriptor_to_variables (with records of a previous load present) and of Loader.load (two-load history)", "", floor=8)
+    from . import io_folds as iof
+    from . import loader_folds as lfold
+    iof.check_descriptor_to_variables(run, tree)
+    lfold.check_load(run, tree)
+
+
+RULES = [r1, r3, r5, r6, r7_fresh_pieces]
